@@ -120,6 +120,19 @@ Proof.
   split; [reflexivity|]. split; [exact H1|]. split; [exact H2|]. split; [exact H3|exact H4].
 Qed.
 
+(* the biome half: row i of bio_rows holds the name Type.MarshalText gives biome i (as a number: 1, then
+   its bytes, base 256) and the id Type.UnmarshalText returns for that name; all 63 *)
+Theorem C13_registry_biomes :
+  bio_count = 63 /\ lenN bio_rows = 63 /\
+  (forall i, i < 63 -> bio_back i = i) /\
+  NoDup (map fst bio_rows) /\
+  (forall i j, i < 63 -> j < 63 -> bio_key i = bio_key j -> i = j).
+Proof.
+  pose proof biome_facts as (H1 & H2 & H3 & H4).
+  assert (E: bio_count = 63) by reflexivity. rewrite E in *.
+  split; [reflexivity|]. split; [exact H1|]. split; [exact H2|]. split; [exact H3|exact H4].
+Qed.
+
 (* the height maps travel as the network-format NBT compound {MOTION_BLOCKING: [L;..], WORLD_SURFACE: [L;..]}
    (C01's textbook encoding), and reading it back gives both arrays and consumes exactly the image *)
 Theorem C13_heightmap_nbt : forall mb ws, longs_ok mb -> longs_ok ws ->
@@ -324,6 +337,7 @@ Print Assumptions C13_wire_side_conditions.
 Print Assumptions C13_save.
 Print Assumptions C13_width_recovery.
 Print Assumptions C13_registry.
+Print Assumptions C13_registry_biomes.
 Print Assumptions C13_heightmap_nbt.
 Print Assumptions C13_heightmap_read.
 Print Assumptions C13_block_entity.
